@@ -43,6 +43,9 @@ fixed("C09", "elements of a readonly array cannot be assigned", "`readonly a=(1 
 fixed("C17", "a new job never reuses the number of a live job", "launch, launch, finish 1, poll, launch gave two live jobs numbered 2")
 fixed("C02", "does not negate the status carried by exit or return", "`! exit 4` exited with 0, `f() { ! return 3; }` returned 0")
 fixed("C14", "printed redirection lists keep their separators", "`declare -f` printed `done> /dev/null2>& 1`")
+fixed("C13", "export -p escapes the characters", "`export -p` wrote raw values between double quotes; a value with a double quote, backslash, dollar or backquote did not read back")
+fixed("C13", "alias listing quotes an embedded single quote", "the alias listing printed an embedded single quote unescaped")
+fixed("C13", "leading ~ or # is quoted", "`printf %q`, `${v@Q}`, `set` and the xtrace printed a leading `~` or `#` bare (tilde expansion / comment on re-read)")
 fixed("C07", "hex, octal and oversized decimal arithmetic literals wrap", "`$((0x8000000000000000))`, `$((99999999999999999999))`, `$((0x))` were rejected")
 
 # ---------------------------------------------------------------------------------------------- C01
@@ -122,6 +125,8 @@ finding("C08-leading-rbracket", "C08", "a `]` right after `[` or `[!` is not tak
         all=["pat:leading-rbracket"])
 finding("C08-nullglob-invalid-bracket", "C08", "under nullglob a word with an unterminated `[` is kept; bash removes it (any unquoted `[` makes the word a pattern)",
         all=["glob", "pat:bracket", "nullglob"])
+finding("C08-quoted-dot-in-subdir-component", "C08", "a path component after a `/` that starts with a quoted or escaped dot (`d/'.'*`, `d/\\.*`) does not match dot-files: the word is left unexpanded",
+        all=["glob:quoted-segments", "glob:slash"])
 finding("C08-test-forces-extglob", "C08", "`[[ s == p ]]` does not force extglob on its right-hand side when extglob is off",
         all=["form:[[", "pat:extglob-group"])
 finding("C08-bracket-edge-cases", "C08", "bracket expressions containing `!`/`-`/`\\` at the edges (`[!-]`, `[\\]]`, `[a-]`) differ from bash",
@@ -178,17 +183,10 @@ finding("C12-nested-parens-arith", "C12", "`( ( cmd ) )` written with adjacent p
 finding("C12-nested-parens-parse", "C12", "same, seen by the parse probes", all=["nested-paren-parse"])
 
 # ---------------------------------------------------------------------------------------------- C13
-finding("C13-export-p-backquote", "C13", "`export -p` prints values in double quotes without escaping a backquote",
-        all=["producer:export -p", "sym:backquote"])
-for sym in ["dquote", "backslash", "dollar"]:
-    finding(f"C13-export-p-{sym}", "C13", f"`export -p` prints values in double quotes without escaping ({sym})", all=["producer:export -p", f"sym:{sym}"])
-finding("C13-leading-hash", "C13", "a value starting with `#` is emitted unquoted (printf %q, ${v@Q}, xtrace, set) and read back as a comment", all=["sym:leading-hash"])
-finding("C13-alias-single-quote", "C13", "`alias` lists a body containing a single quote as `'''`",
-        all=["producer:alias", "sym:squote"])
-finding("C13-trap-p-single-quote", "C13", "`trap -p` lists a command containing a single quote as `'''`",
-        all=["producer:trap -p", "sym:squote"])
-finding("C13-leading-tilde", "C13", "a value starting with `~` is emitted unquoted by printf %q, `set`, the xtrace and as an associative key, and is tilde-expanded when read back",
-        all=["sym:leading-tilde"])
+finding("C13-trap-p-single-quote", "C13", "`trap -p` lists a command containing a single quote without escaping it (the listing cannot be read back)",
+        all=["producer:trap -p", "sym:squote"], why=PINNED + " (trap.yaml 'trap handler - single quotes preserved'): the one-line repair was written, validated by this check, and withdrawn because it makes that known_failure case pass")
+finding("C13-assoc-key-tilde", "C13", "an associative-array key starting with `~` is printed bare inside `[...]` by declare -p and tilde-expanded when read back",
+        all=["producer:declare -p assoc key", "sym:leading-tilde"])
 
 # ---------------------------------------------------------------------------------------------- C14
 for feat, what in [("heredoc", "here-document bodies are indented and the closing tag is printed with its quotes"), ("heredoc-quoted", "quoted here-document tag"), ("heredoc-dash", "<<- here-document"), ("heredoc-two", "two here-documents"), ("heredoc-then-cmd", "here-document followed by a command"),
